@@ -36,7 +36,7 @@ type Case struct {
 }
 
 func gen(t *rapid.T) Case {
-	c := Case{H: lib.GenHistory(t, lib.RepoGenOpts{}, 2, 6)}
+	c := Case{H: lib.GenHistory(t, lib.RepoGenOpts{SubOuts: true, Tools: true}, 2, 6)}
 	for range c.H.States {
 		c.CleanAt = append(c.CleanAt, rapid.IntRange(0, 2).Draw(t, "clean") == 0)
 	}
